@@ -171,6 +171,10 @@ class Tr:
             self.err(n, "call of a computed function")
         if n.keywords:
             self.err(n, f"keyword arguments in call of {f}")
+        if f is not None and f.endswith(".indices") and f[:-len(".indices")] in self.spec.get("slices", {}) and len(n.args) == 1:
+            a, b, k = self.spec["slices"][f[:-len(".indices")]]
+            ln, tl = self.expr(n.args[0], env)
+            return (f"(sliceIndices {ln} {env[a][0]} {env[b][0]} {env[k][0]})", "Int × Int × Int")
         if f in self.ctor:
             parts = [self.expr(a, env) for a in n.args]
             return ("(" + ", ".join(p[0] for p in parts) + ")", " × ".join(p[1] for p in parts))
@@ -179,6 +183,8 @@ class Tr:
             args = self.call_args(n, c, env)
             self.add_pre(f"({c['kernel']}_pre {' '.join(args)})")
             return (f"({c['kernel']} {' '.join(args)})", c["type"])
+        if f == "len" and len(n.args) == 1 and _safe_path(n.args[0]) in self.spec.get("lens", {}):
+            return (self.spec["lens"][_safe_path(n.args[0])], INT)
         args = [self.expr(a, env) for a in n.args]
         if f in ("np.minimum", "np.maximum", "min", "max") and len(args) == 2 and args[0][1] == args[1][1] == INT:
             return (f"({'min' if 'min' in f else 'max'} {args[0][0]} {args[1][0]})", INT)
@@ -190,6 +196,8 @@ class Tr:
             return (f"(if {args[0][0]} then {args[1][0]} else {args[2][0]})", args[1][1])
         if f in ("np.asanyarray", "np.asarray", "int", "np.atleast_1d") and len(args) == 1 and args[0][1] == INT:
             return args[0]
+        if f == "len" and len(n.args) == 1 and _safe_path(n.args[0]) in self.spec.get("lens", {}):
+            return (self.spec["lens"][_safe_path(n.args[0])], INT)
         if f == "np.ones_like" and len(args) == 1:
             return ("(1 : Int)", INT)
         if f == "np.min" and len(args) == 1 and _safe_path(n.args[0]) in self.rowvars:
@@ -275,6 +283,21 @@ class Tr:
             return self.block(rest, env, ind)
         if isinstance(st, ast.Assign) and len(st.targets) == 1:
             tgt = st.targets[0]
+            if isinstance(tgt, ast.Tuple) and isinstance(st.value, ast.Call):
+                e, ty = self.expr(st.value, env)
+                tys = [t.strip() for t in ty.split("×")]
+                if len(tys) != len(tgt.elts):
+                    self.err(st, "tuple unpacking arity")
+                tmp = self.fresh("tup")
+                lines = [f"{pad}let {tmp} : {ty} := {e}"]
+                env = dict(env)
+                for i, (t, tyi) in enumerate(zip(tgt.elts, tys)):
+                    proj = tmp + "".join(".2" for _ in range(i)) + (".1" if i < len(tys) - 1 else "")
+                    ln = self.fresh(_path(t))
+                    lines.append(f"{pad}let {ln} : {tyi} := {proj}")
+                    env[_path(t)] = (ln, tyi)
+                self.prefix = self.prefix + lines
+                return "\n".join(lines) + "\n" + self.block(rest, env, ind)
             if isinstance(tgt, ast.Tuple):
                 if not isinstance(st.value, ast.Tuple) or len(st.value.elts) != len(tgt.elts):
                     self.err(st, "tuple unpacking of a non-literal")
@@ -355,7 +378,12 @@ class Tr:
         for st in body:
             if isinstance(st, ast.Pass) or (isinstance(st, ast.Expr) and isinstance(st.value, ast.Constant)):
                 continue
-            if isinstance(st, ast.Assign) and len(st.targets) == 1 and not isinstance(st.targets[0], ast.Tuple):
+            if isinstance(st, ast.Assign) and len(st.targets) == 1 and isinstance(st.targets[0], ast.Tuple) \
+                    and isinstance(st.value, ast.Tuple) and len(st.value.elts) == len(st.targets[0].elts):
+                vals = [self.expr(v, out_env) for v in st.value.elts]      # simultaneous assignment
+                for t, (e, ty) in zip(st.targets[0].elts, vals):
+                    out_env[_path(t)] = (e, ty)
+            elif isinstance(st, ast.Assign) and len(st.targets) == 1 and not isinstance(st.targets[0], ast.Tuple):
                 e, ty = self.expr(st.value, out_env)
                 out_env[_path(st.targets[0])] = (e, ty)
             elif isinstance(st, ast.AugAssign):
@@ -470,6 +498,16 @@ def translate_kernel(repo, spec):
         env[py] = (lean_name, ty)
         params.append(f"({lean_name} : {ty})")
     body = list(fn.body)
+    if "stop_before" in spec:
+        cut = None
+        for i, stn in enumerate(body):
+            if ast.unparse(stn).startswith(spec["stop_before"]):
+                cut = i
+                break
+        if cut is None:
+            raise Unsupported(f"{spec['file']}: statement starting with {spec['stop_before']!r} not found in {spec['qual']}")
+        ret = ast.parse("return (" + ", ".join(spec["returns"]) + ")").body[0]
+        body = body[:cut] + [ret]
     if "prologue" in spec:   # python statements executed before the body (e.g. aliasing an argument)
         body = ast.parse(textwrap.dedent(spec["prologue"])).body + body
     term = tr.block(body, env, 1)
